@@ -169,6 +169,17 @@ def link_shape(ck, prog, pv, pvn, stem, K, lb, hb, term_p, id_p, adds, direct):
             ck.ob("DOM", "link_%s_term/links" % stem, key == {term_p} and ida0 == {id_p} and ida == {id_p} and elem_ok, "link_%s_term adds record `%s` to the term looked up by `%s` and to each element of the pass" % (stem, idname(ida0), idname(key)), where=hb.where(at0.line))
             return
         if lp is None:
+            # the walk may be handed to a private helper that loops over a group it is given and applies a closure to every term of it
+            # (`self.for_each_term(&ancestors, |t| { t.add_K(id); })`): the flat pass exists, its shape is not read through the helper
+            for cbi_, ct_ in hb.calls():
+                tgh_ = prog.bodies.get(ct_.callee.res or "")
+                if tgh_ is None or tgh_.kind not in ("Fn", "AssocFn") or tgh_.exported or tgh_.reachable or tgh_.id == hb.id or not tgh_.natural_loops():
+                    continue
+                cl_ = [prog.bodies.get(pv.closure_of_operand(hb, a_) or "") for a_ in ct_.args]
+                cl_ = [c_ for c_ in cl_ if c_ is not None and c_.kind == "Closure"]
+                if any(any((t2.callee.res or "").endswith("HpoTermInternal::add_" + stem) for _, t2 in c_.calls()) for c_ in cl_):
+                    ck.undecided("DOM", "link_%s_term/propagation" % stem, "link_%s_term hands the walk over the ancestors to the private helper %s together with the closure that adds the %s: the flat pass is not read through that helper" % (stem, tgh_.short, K), where=hb.where(ct_.line))
+                    return
             ck.ob("DOM", "link_%s_term/propagation" % stem, False, "link_%s_term neither recurses nor loops: the %s never reaches the ancestors" % (stem, K), where=hb.where())
             return
         header, blocks = lp
